@@ -157,10 +157,18 @@ def run(tier, rep):
         fm = rnd.choice(["none", "eof", "short", "mixed"])
         try:
             with watchdog(20):
-                tr.add(data, kind="scripted" if fm != "none" else rnd.choice(["scripted", "bytesio", "buffered"]), validate=i % 2,
+                tr.add(data, kind="scripted" if fm != "none" else rnd.choice(["scripted", "bytesio", "buffered", "pipe"]), validate=i % 2,
                        parsed=True, quit=i % 3, handler=bool(i % 4), faults=gen_streams.faults(rnd, 100, fm), rnd=rnd, use_iter=bool(i % 2))
         except Watchdog:
             rep.reject("NoTermination", {"engine": "framer", "quit": i % 3}, {"stream_hex": data.hex(), "quitonerror": i % 3, "validate": i % 2})
+    # truncated tails (the stream ends inside a frame / sentence) on every kind of stream object, incl. a
+    # non-seekable one (read end of a pipe)
+    for i in range(16 if quick else 200):
+        data, items = gen_streams.mixed_stream(rnd, spool, rnd.randint(2, 6), well_formed=True)
+        cutat = rnd.randrange(max(1, len(data) - 40), len(data)) if len(data) > 1 else 1
+        with watchdog(20):
+            tr.add(data[:cutat], kind=["pipe", "buffered", "bytesio", "pipe"][i % 4], validate=1, parsed=True, quit=i % 3, handler=bool(i % 2), rnd=rnd,
+                   use_iter=bool(i % 2))
     for fn in stream_corpus.log_files()[: (3 if quick else 99)]:
         data = open(fn, "rb").read()[: (5000 if quick else 10**9)]
         for q in (0, 1, 2):
